@@ -168,12 +168,26 @@ def _mode(op):
     return False, 1
 
 
-def _cells(x, lay):
-    """(all cell values as floats, indices of the judged cells)"""
-    x = float(x)
-    if lay == 0:
-        return [x], [0]
-    vals = [x, 0.5 * x, -x, x + 0.25]
+DTYPES = ["float64", "int64", "int32", "int16"]  # payload dtypes (optional last element of to_units/prepare/link)
+
+
+def _dt(op):
+    pos = {"to_units": 5, "prepare": 5, "link": 8}.get(op[0])
+    return op[pos] if pos is not None and len(op) > pos else 0
+
+
+def _cells(x, lay, dt=0):
+    """(all cell values as floats, indices of the judged cells); integer values for an integer dtype"""
+    if dt:
+        xi = int(x)
+        if lay == 0:
+            return [float(xi)], [0]
+        vals = [float(xi), float(xi // 2 + 3), float(-xi), float(xi + 7)]
+    else:
+        x = float(x)
+        if lay == 0:
+            return [x], [0]
+        vals = [x, 0.5 * x, -x, x + 0.25]
     return vals, (list(range(4)) if lay in (1, 2) else [i for i in range(4) if not MASK[i]])
 
 
@@ -181,10 +195,13 @@ def expand(op):
     """the scalar model ops of one op: one per read and judged cell (reads outermost)"""
     lay = _lay(op)
     _, reads = _mode(op)
-    if op[0] not in ("prepare", "link") or (lay == 0 and reads == 1):
-        return [op[:4] if op[0] == "prepare" else op[:5] if op[0] == "link" else op]
+    dt = _dt(op)
+    if op[0] == "to_units":
+        return [op[:4] + [_cells(op[4], 0, dt)[0][0]]]
+    if op[0] not in ("prepare", "link"):
+        return [op]
     xi = 3 if op[0] == "prepare" else 4
-    vals, judged = _cells(op[xi], lay)
+    vals, judged = _cells(op[xi], lay, dt)
     return [op[:xi] + [vals[i]] for _ in range(reads) for i in judged]
 
 
@@ -202,7 +219,8 @@ RULE = (
     "degC/K/degF, percent/ppm/psu/radian/degree, dimensionless aliases, CF/UDUNITS spellings); sweep sessions cover "
     "every ordered pair of names in random order, focus sessions hammer 3-6 names (repeated and reversed queries), "
     "cache clears (API or dict.clear()) at random points; half of the prepare/link ops run on UniformGrid((3,3)) "
-    "under Mask.NONE / Mask.FLEX / a fixed mask array with plain and masked-array payloads, every unmasked cell judged; 40% of the links are static (Output(static) >> Input(static), one publication) and "
+    "under Mask.NONE / Mask.FLEX / a fixed mask array with plain and masked-array payloads, every unmasked cell judged; 30% of the to_units/prepare/link payloads have an integer dtype (int64/int32/int16, "
+    "plain and masked; the expected numbers are the exact rational conversion of the integers); 40% of the links are static (Output(static) >> Input(static), one publication) and "
     "links are read 1-4 times, every read judged; non-trivial = a session that repeats a pair after it was "
     "cached, contains a clear, and contains compatible-not-equivalent, equivalent-not-identical and incompatible pairs; "
     "distinct by canonical case hash"
@@ -213,6 +231,8 @@ TRUSTED = [
     "pi/180 (degree) is represented by a 35-digit rational approximation",
 ]
 ASSUMPTIONS = [
+    "integer payloads are generated only with a dtype wide enough for every converted value (narrow integer dtypes wrap "
+    "around inside pint/NumPy when the conversion factor is integral, e.g. int16 250 h -> -17504 s on the unchanged tree)",
     "masks do not change numbers: a gridded prepare/link op is compared cell by cell (unmasked cells) with the scalar model op",
     "catalogue avoids nearly-equal units: finam's equivalent_units uses np.isclose (rtol 1e-5), the model uses exact == 1",
     "converted numbers are compared with relative tolerance 1e-12 (IEEE rounding not modelled); relabelled numbers exactly",
@@ -300,24 +320,45 @@ def pure(op):
 # generator
 # ----------------------------------------------------------------------------------------------
 XS = [0.0, 1.0, 2.5, -40.0, 100.0, 273.15, 0.001, 86400.0, 1e6, -0.375, 12345.678, 3e-7]
+INT_XS = [1500, 250, 3, -7, 0, 20, 15, -40, 8640, 1, 273]  # |values derived from them| < 2**15
 OPK = ["compat", "equiv", "to_units", "prepare", "accepts", "link", "same"]
 
 
+_BITS = {1: 63, 2: 31, 3: 15}
+# Kept OUT of the generated domain (see ASSUMPTIONS): pint multiplies by a Python int when the conversion
+# factor is integral (h -> s: 3600) and NumPy then keeps the narrow integer dtype, so the product wraps
+# around silently on the unchanged tree: to_units / prepare / a link deliver -17504 s for int16 250 h.
+WITNESS_INT_OVERFLOW = ["to_units", "h", "s", False, 250, 3]
+
+
+def _fit_dt(dt, units, x, lay):
+    """widen an integer dtype until every converted cell value fits it (no wrap-around in pint/NumPy)"""
+    if not dt:
+        return 0
+    vmax = max(abs(v) for v in _cells(x, lay, dt)[0])
+    us = [u for u in units if u is not None]
+    bound = max([vmax] + [vmax * FAC[a] / FAC[b] for a in us for b in us if DIMS[a] == DIMS[b]])
+    while dt > 1 and 4 * bound >= 2 ** _BITS[dt]:
+        dt -= 1
+    return dt
+
+
 def _mk_op(rng, kind, i, j, third=None):
-    x = rng.choice(XS)
     if kind in ("compat", "equiv", "same", "accepts"):
         return [kind, i, j]
+    dt = rng.choice([1, 1, 2, 3]) if rng.random() < 0.3 else 0  # integer-typed payloads
+    x = rng.choice(INT_XS) if dt else rng.choice(XS)
     if kind == "to_units":
-        return ["to_units", i, j, rng.random() < 0.6, x]
+        return ["to_units", i, j, rng.random() < 0.6, x, _fit_dt(dt, [i, j], x, 0)]
     lay = 0 if rng.random() < 0.5 else rng.choice([1, 2, 3, 4, 5, 5, 5])
     if kind == "prepare":
-        return ["prepare", i, j, x, lay]
+        return ["prepare", i, j, x, lay, _fit_dt(dt, [i, j], x, lay)]
     if kind == "link":
         r = rng.random()
         k = None if r < 0.15 else (third if third is not None else rng.randrange(NCAT))
         static = rng.random() < 0.4
         reads = rng.choice([2, 2, 3, 4]) if static or rng.random() < 0.3 else 1
-        return ["link", k, i, j, x, lay, static, reads]
+        return ["link", k, i, j, x, lay, static, reads, _fit_dt(dt, [k, i, j], x, lay)]
     raise ValueError(kind)
 
 
@@ -372,6 +413,16 @@ def _i(n):
 
 
 CORPUS = [
+    # seeded/C17_e: INTEGER-typed data (plain and masked, int64/int32/int16) must be converted to the exact
+    # (non-integer) numbers: 1500 m -> 1.5 km, 15 % -> 0.15, 20 degC -> 293.15 K; over links and through to_units
+    {"ops": [["to_units", _i("m"), _i("km"), True, 1500, 1], ["to_units", _i("m"), _i("km"), False, 250, 2],
+             ["to_units", _i("degC"), _i("K"), True, 20, 3], ["to_units", _i("%"), _i("1"), True, 15, 1],
+             ["link", _i("m"), _i("m"), _i("km"), 1500, 0, False, 1, 1], ["link", None, _i("m"), _i("km"), 250, 1, False, 2, 2],
+             ["link", _i("Pa"), _i("Pa"), _i("hPa"), 15, 3, False, 1, 1], ["link", _i("degC"), _i("degC"), _i("K"), 20, 4, True, 2, 2],
+             ["link", _i("%"), _i("%"), _i("1"), 15, 5, True, 3, 3], ["link", _i("s"), _i("s"), _i("d"), 8640, 2, False, 1, 1],
+             ["link", _i("km"), _i("km"), _i("m"), 3, 5, False, 1, 1], ["link", _i("Hz"), _i("1/s"), _i("s-1"), 3, 3, False, 1, 2],
+             ["prepare", _i("m"), _i("km"), 1500, 5, 1], ["prepare", _i("degF"), _i("degC"), -40, 3, 2],
+             ["link", _i("mm"), _i("m"), _i("km"), 1500, 4, False, 2, 1], ["link", _i("m"), _i("m"), _i("s"), 3, 0, False, 1, 1]]},
     # seeded/C17_c: a STATIC input must deliver the converted publication on EVERY read (not only the first);
     # timed links read repeatedly next to them; scalar and fixed-mask layouts
     {"ops": [["link", _i("km"), _i("km"), _i("m"), 1.5, 0, True, 3], ["link", None, _i("degC"), _i("K"), 1.5, 0, True, 4],
@@ -462,13 +513,14 @@ def _frs(fr):
     return [str(fr.numerator), str(fr.denominator)]
 
 
-def _layout(fm, np, vals, lay):
-    """(grid, mask of the Info, payload array) of a layout"""
+def _layout(fm, np, vals, lay, dt=0):
+    """(grid, mask of the Info, payload array) of a layout and payload dtype"""
+    dtype = np.dtype(DTYPES[dt])
     if lay == 0:
-        return fm.NoGrid(), fm.Mask.FLEX, np.array(vals[0])
+        return fm.NoGrid(), fm.Mask.FLEX, np.array(vals[0], dtype=dtype)
     m = np.array(MASK).reshape(2, 2)
     mask = {1: fm.Mask.NONE, 2: fm.Mask.FLEX, 3: fm.Mask.FLEX, 4: m, 5: m}[lay]
-    arr = np.array(vals, dtype=float).reshape(2, 2)
+    arr = np.array(vals, dtype=float).astype(dtype).reshape(2, 2)
     if lay in (3, 4):
         arr = np.ma.array(arr, mask=m, shrink=False)
     return fm.UniformGrid((3, 3)), mask, arr
@@ -523,7 +575,8 @@ def run_impl(case):
                 else:
                     res.append(["err", "accepts-other"])
             elif k == "to_units":
-                d = Qn(np.array(op[4]), fm.UNITS.Unit(NAMES[op[1]]))
+                vals, _ = _cells(op[4], 0, _dt(op))
+                d = Qn(_layout(fm, np, vals, 0, _dt(op))[2], fm.UNITS.Unit(NAMES[op[1]]))
                 r, cv = tools.to_units(d, NAMES[op[2]], check_equivalent=op[3], report_conversion=True)
                 if cv is not None and (_label(cv[0]), _label(cv[1])) != (CID[op[1]], CID[op[2]]):
                     res.append(["err", "bad-conversion-report"])
@@ -531,8 +584,8 @@ def run_impl(case):
                     res.append(["val", _label(r.units), cv is not None, _frs(_fr(r.magnitude))])
             elif k == "prepare":
                 lay = _lay(op)
-                vals, judged = _cells(op[3], lay)
-                grid, mask, arr = _layout(fm, np, vals, lay)
+                vals, judged = _cells(op[3], lay, _dt(op))
+                grid, mask, arr = _layout(fm, np, vals, lay, _dt(op))
                 d = Qn(arr, fm.UNITS.Unit(NAMES[op[1]]))
                 info = fm.Info(time=t0, grid=grid, units=NAMES[op[2]], mask=mask)
                 r, cv = tools.prepare(d, info, report_conversion=True)
@@ -545,8 +598,8 @@ def run_impl(case):
             elif k == "link":
                 kk, a, b, x = op[1], op[2], op[3], op[4]
                 lay = _lay(op)
-                vals, judged = _cells(x, lay)
-                grid, mask, arr = _layout(fm, np, vals, lay)
+                vals, judged = _cells(x, lay, _dt(op))
+                grid, mask, arr = _layout(fm, np, vals, lay, _dt(op))
                 static, reads = _mode(op)
                 tt = None if static else t0
                 out = fm.Output(name="Out", static=static)
@@ -755,8 +808,9 @@ def distribution(cases, obss):
     for (i, j) in pairs:
         cls["identical" if CID[i] == CID[j] else "equivalent" if equiv(i, j) else "compatible" if compat(i, j) else "incompatible"] += 1
     reads = Counter(("static" if _mode(op)[0] else "timed") + f" x{_mode(op)[1]}" for c in cases for op in c["ops"] if op[0] == "link")
+    dts = Counter(DTYPES[_dt(op)] for c in cases for op in c["ops"] if op[0] in ("to_units", "prepare", "link"))
     lays = Counter(LAYOUTS[_lay(op)] for c in cases for op in c["ops"] if op[0] in ("prepare", "link"))
-    return {"op_kinds": dict(kinds), "answers": dict(outcome), "prepare_link_layouts": dict(lays), "link_reads": dict(reads), "ordered_name_pairs_covered": len(pairs),
+    return {"op_kinds": dict(kinds), "answers": dict(outcome), "prepare_link_layouts": dict(lays), "link_reads": dict(reads), "payload_dtypes": dict(dts), "ordered_name_pairs_covered": len(pairs),
             "ordered_name_pairs_total": NCAT * NCAT, "pair_classes_covered": dict(cls),
             "session_length_bucket": dict(Counter(min(len(c["ops"]) // 50 * 50, 400) for c in cases))}
 
